@@ -1,6 +1,7 @@
 package driver
 
 import (
+	"gosymx/interp"
 	"crypto/sha256"
 	"encoding/json"
 	"flag"
@@ -196,7 +197,7 @@ func CheckMain(args []string) int {
 			}
 			label := v.V.Label
 			if v.V.Kind == "panic" {
-				label = "panic:" + panicFingerprint(v.V.Msg)
+				label = "panic:" + interp.PanicFingerprint(v.V.Msg)
 			}
 			known := false
 			for _, kf := range kfs {
